@@ -106,7 +106,10 @@ class Repo:
         for node in body:
             if isinstance(node, (ast.FunctionDef, ast.AsyncFunctionDef)):
                 qn = prefix + node.name
-                fi = FuncInfo(qn, mod.path, node, cls, mod, _decorator_names(node),
+                decs = _decorator_names(node)
+                if any(d.endswith(".setter") for d in decs):
+                    qn += ".setter"
+                fi = FuncInfo(qn, mod.path, node, cls, mod, decs,
                               ast.get_source_segment(mod.text, node) or "")
                 # overloads: the last definition wins (as at run time)
                 mod.functions[qn] = fi
@@ -172,11 +175,6 @@ class Repo:
         """key = 'repid/x.py::Qual.name'"""
         path, qn = key.split("::")
         mod = self.module(path)
-        if qn.endswith(".setter"):
-            cname, mname, _ = qn.rsplit(".", 2)
-            ci = mod.classes.get(cname)
-            if ci and (mname + ".setter") in ci.methods:
-                return ci.methods[mname + ".setter"]
         if qn not in mod.functions:
             raise Unsupported(f"sidecar out of date: function {key} not found in the tree")
         return mod.functions[qn]
